@@ -607,7 +607,7 @@ func init() {
 		Assumptions: []string{"GRAMMAR.md is the documented grammar; the name lexeme is not defined there, so names that start with a lexer keyword are outside the explored domain"},
 		NumCases: func(tier string) int {
 			if tier == "thorough" {
-				return 30000
+				return 60000
 			}
 			return 1200
 		},
